@@ -201,7 +201,10 @@ func runReload(rc reloadCase, rep *emit.Report) {
 func runExtra(only int, nReload int, root *rng.R, rep *emit.Report) {
 	one := func(id int) {
 		rep.Evaluations++
-		if id >= reloadBase {
+		if id >= fieldBase {
+			runField(genField(root.Fork(uint64(id)), id-fieldBase), rep)
+			rep.Count("extra_field_change_reload_cases", 1)
+		} else if id >= reloadBase {
 			runReload(genReload(root.Fork(uint64(id)), id-reloadBase), rep)
 			rep.Count("extra_reload_cases", 1)
 		} else {
@@ -218,5 +221,8 @@ func runExtra(only int, nReload int, root *rng.R, rep *emit.Report) {
 	}
 	for i := 0; i < nReload; i++ {
 		one(reloadBase + i)
+	}
+	for i := 0; i < 3*nReload; i++ {
+		one(fieldBase + i)
 	}
 }
